@@ -177,6 +177,30 @@ def run(cx):
             if m2 and m2.group('key2'):
                 cx.check('C10.G5', closure_ret(m2.group('key2')) == 'RecordSet::name(arg2)', P + '{closure@or_else#0}', 'ret', 'fallback-greatest-by-owner-name', str(closure_ret(m2.group('key2'))))
 
+    # ---------------------------------------------------------------- S1 every RRset of a signed zone gets its RRSIGs
+    # "with DO set on a signed zone, every authoritative RRset in the response carries its RRSIGs": the RRSIGs served are the ones
+    # sign_zone attached.  Its loop over the zone map reaches sign_rrset for EVERY RRset before it takes the next one (an error
+    # return is the only other exit); a `continue` that skips some RRsets (e.g. "everything at or below a delegation point", which
+    # also skips the parent-side authoritative DS) leaves them unsigned.  The records signed are those of the zone map itself.
+    sz = cx.fn('C10.S1', 'hickory_server::store::in_memory::inner::InnerInMemory::sign_zone')
+    if sz:
+        nx_ = [s_ for s_ in cx.calls(sz, r'Iterator>::next$|Iterator::next$') if re.search(r'arg1\.records', s_.term)]
+        sg_ = cx.calls(sz, r'InnerInMemory::sign_rrset$')
+        cx.check('C10.S1', len(nx_) == 1 and len(sg_) == 1, sz.path, 'calls', 'one-loop-over-the-zone-map-one-signing-call', f'next={len(nx_)} sign_rrset={len(sg_)}')
+        if len(nx_) == 1 and len(sg_) == 1:
+            body = []
+            for t_, ps in (sz.edge_props(sz.succs(nx_[0].bb)[0]) or {}).items():
+                pass
+            # the loop body starts on the Some edge of next()
+            for bi in range(len(sz.blocks)):
+                for t_, ps in (sz.edge_props(bi) or {}).items():
+                    if any(re.search(r'^ok\(<(ValuesMut|IterMut)<.*> as Iterator>::next\(BTreeMap::(values_mut|iter_mut)\(arg1\.records\)\)\)$', shorten(p_)) for p_ in ps):
+                        body.append(t_)
+            cx.check('C10.S1', len(body) == 1, sz.path, 'loop', 'loop-body-found', str(len(body)))
+            cx.must_pass('C10.S1', sz, nx_, via_blocks={sg_[0].bb}, start_blocks=body, what='every-rrset-of-the-zone-map-is-signed-before-the-next-one')
+            cx.check('C10.S1', bool(re.search(r'^InnerInMemory::sign_rrset\(Arc::make_mut\(<(ValuesMut|IterMut)<.*> as Iterator>::next\(BTreeMap::(values_mut|iter_mut)\(arg1\.records\)\)@Some\.0(\.1)?\),arg1\.secure_keys,', sg_[0].term)),
+                     sz.path, sg_[0].key(), 'signs-the-map-entry-with-the-zone-keys', sg_[0].term[:200], sg_[0].loc)
+
     # ---------------------------------------------------------------- H helper semantics the guards above rely on (rules/helpers.py)
     helpers.check(cx, 'C10.H', ['LowerName::zone_of', 'LowerName::base_name', 'LowerName::is_wildcard', 'LowerName::into_wildcard', 'LowerName::is_root', 'RecordTypeSet::contains'])
 
